@@ -27,7 +27,7 @@
    Items whose value is the proto3 default inside PanelInfo / PanelTopology / RunTimeStats
    (empty text, 0) report nothing (see DenoteOut.v). *)
 From RP Require Import Lib.Base Lib.Sexp Lib.Strings Lib.TrimSpace Model.MsgOut Spec.DenoteOut.
-From Coq Require Import String.
+From Coq Require Import String Permutation.
 Open Scope Z_scope.
 
 Inductive line_class :=
@@ -429,3 +429,21 @@ Definition representable_outb (m : out_msg) : bool :=
   opt_ok (om_sys m) rep_sys &&
   forallb rep_event (om_events m) && forallb rep_reg (om_regs m).
 End Representable.
+
+(* ---------------------------------------------------------------- vocabulary of the C03 / C04 statements *)
+(* a line of the grammar (strictly or leniently read) *)
+Definition wf_line (l : bytes) : Prop := exists st rs, read_out_line l = WF st rs.
+
+(* a message list without nil pointers *)
+Fixpoint all_some_msgs (ms : list (option out_msg)) : option (list out_msg) :=
+  match ms with
+  | [] => Some []
+  | Some m :: r => match all_some_msgs r with Some l => Some (m :: l) | None => None end
+  | None :: _ => None
+  end.
+
+(* the map iteration orders handed to the encoder model: one per message, each a permutation
+   of that message's availability map (Go leaves the order of `range` over a map unspecified) *)
+Inductive orders_ok : list (list (Z * Z)) -> list out_msg -> Prop :=
+| oo_nil : orders_ok [] []
+| oo_cons o os m ms : Permutation o (om_map m) -> orders_ok os ms -> orders_ok (o :: os) (m :: ms).
